@@ -81,10 +81,10 @@ def obligations(prog):
                 obs.append(Obligation("R-VERDICT", oid, el.loc, fname, text, ok, why, props=props))
             else:
                 cc = contributing_calls(f, e)
-                if need_all:
-                    for d in dom.get(el.blk, ()):
-                        if d != el.blk and f.blocks[d].cond is not None:
-                            cc |= contributing_calls(f, f.blocks[d].cond) & set(preds)   # `if (!p1(..)) return 0; return p2(..);`
+                # `if (!p1(..)) return 0; return p2(..);` — a predicate that decided a dominating branch has been applied too
+                for d in dom.get(el.blk, ()):
+                    if d != el.blk and f.blocks[d].cond is not None:
+                        cc |= contributing_calls(f, f.blocks[d].cond) & set(preds)
                 ok = (set(preds) <= cc) if need_all else bool(cc & set(preds))
                 obs.append(Obligation("R-VERDICT", oid, el.loc, fname, text, ok,
                                       ("value derives from %s" % ", ".join(sorted(cc & set(preds)))) if ok else
